@@ -209,7 +209,8 @@ def catalogue(T):
             for xmax in (1.0, 10.0):
                 out.append(("LogSinh(loga=%g,logb=%g,xmax=%g)" % (loga, logb, xmax),
                             mk("LogSinh", {"loga": loga, "logb": logb}, {"xmax": xmax}), xmax * geo(0.01, 3.0, 16), []))
-    for lam in (0.0, 1e-3, -1e-3, 0.1, -0.1, 1.0, -1.0, 3.0):
+    # (exponents below the 1e-10 switch take the lam = 0 branch; 1e-10 < |lam| < 1e-3 is outside the conditioning region)
+    for lam in (0.0, 1e-3, -1e-3, 0.1, -0.1, 1.0, -1.0, 3.0, 5e-11, -5e-11, 3e-13):
         for xmax in (1.0, 10.0):
             out.append(("Manly(lam=%g,xmax=%g)" % (lam, xmax), mk("Manly", {"lam": lam}, {"xmax": xmax}),
                         xmax * np.concatenate([-geo(1e-2, 1.0, 8)[::-1], geo(1e-2, 1.0, 8)]), []))
